@@ -196,7 +196,7 @@ func init() {
 				"setIndex.OpenValueCursor/fwd", "setIndex.OpenValueCursor/rev", "setIndex.OpenKeyCursor/fwd", "setIndex.OpenKeyCursor/rev",
 				"GetRelatedEntitiesCursor/fwd", "GetRelatedEntitiesCursor/rev", "LinkCollection.IterateLinks", "RefCountedLinkCollection.IterateLinks/fwd", "RefCountedLinkCollection.IterateLinks/rev",
 				"setSymbolRuntime.OpenCursor", "setSymbolRuntime.OpenCursor (reopened on a row without the bucket)", "setSymbolRuntime.OpenCursor (reopened on another row)", "IterateIds", "IterateValidIds", "IterateIds(extended child store)", "IterateValidIds(extended child store)", "IterateIds(filtered)", "NewFilteredCursor", "TreeSet.ToCursor/fwd", "TreeSet.ToCursor/rev", "NewUnionSetCursor/fwd", "NewUnionSetCursor/rev",
-				"IteratorMatchingAnyOf/1", "IteratorMatchingAnyOf/2/fwd", "IteratorMatchingAnyOf/2/rev", "IteratorMatchingAllOf/1", "IteratorMatchingAllOf/2", "IteratorMatchingAllOf/3 order 0", "IteratorMatchingAllOf/3 order 3", "IteratorMatchingAllOf/3 order 5", "IteratorMatchingAllOf/3 order 7", "IteratorMatchingAnyOf/3", "EmptyCursor", "stackedCursor(dotted set)"}}
+				"IteratorMatchingAnyOf/1", "IteratorMatchingAnyOf/2/fwd", "IteratorMatchingAnyOf/2/rev", "IteratorMatchingAllOf/1", "IteratorMatchingAllOf/2", "IteratorMatchingAllOf/3 order 0", "IteratorMatchingAllOf/3 order 3", "IteratorMatchingAllOf/3 order 5", "IteratorMatchingAllOf/3 order 7", "IteratorMatchingAnyOf/3", "IteratorMatchingAnyOf/2 provider reused", "TypedBucket.OpenCursor/fwd while a reverse cursor is open", "TypedBucket.IterateStringList while a reverse list cursor is open", "TypedBucket.OpenTypedCursor/rev while a forward cursor is open", "EmptyCursor", "stackedCursor(dotted set)"}}
 		},
 	})
 }
@@ -374,6 +374,37 @@ func runC14(c *core.Ctx, idx int) {
 			sym := hst.Store.GetSymbol("lst").(boltz.RuntimeEntitySetSymbol)
 			return sym.OpenCursor(tx, []byte("hub"))
 		}})
+		// two cursors over the same TypedBucket value whose lifetimes overlap: opening the second must not disturb the first
+		add(c14Kind{name: "TypedBucket.OpenCursor/fwd while a reverse cursor is open", set: ne, open: func() ast.SetCursor {
+			fwd := rawB.OpenCursor(tx, true)
+			other := rawB.OpenCursor(tx, false)
+			if other.IsValid() {
+				other.Next()
+			}
+			return fwd
+		}})
+		add(c14Kind{name: "TypedBucket.IterateStringList while a reverse list cursor is open", seekable: true, set: set, open: func() ast.SetCursor {
+			fwd := typedB.IterateStringList()
+			_ = typedB.IterateStringListInDirection(false)
+			return fwd
+		}})
+		add(c14Kind{name: "TypedBucket.OpenTypedCursor/rev while a forward cursor is open", reverse: true, set: set, open: func() ast.SetCursor {
+			rev := typedB.OpenTypedCursor(tx, false)
+			_ = typedB.OpenTypedCursor(tx, true)
+			return rev
+		}})
+		// one cursor provider asked twice in the same transaction, second time in the other direction
+		for _, rev := range []bool{false, true} {
+			rev := rev
+			add(c14Kind{name: "IteratorMatchingAnyOf/2 provider reused", reverse: rev, set: sortedUnion(ne, odd), open: func() ast.SetCursor {
+				provider := ist.Store.IteratorMatchingAnyOf(roles, []string{"r", "odd"})
+				first := provider(tx, rev)
+				if first.IsValid() {
+					first.Next()
+				}
+				return provider(tx, !rev)
+			}})
+		}
 		// the same runtime symbol reopened for another row after it was left on an element of this one
 		add(c14Kind{name: "setSymbolRuntime.OpenCursor (reopened on a row without the bucket)", strSeek: true, set: nil, open: func() ast.SetCursor {
 			sym := hst.Store.GetSymbol("lst").(boltz.RuntimeEntitySetSymbol)
